@@ -1039,6 +1039,22 @@ def _unnest_verdict(cx, rep, port, fd):
     if not calls:
         rep.undecided('unnest verdict', fd, 'select_simple call not found in select_unnested')
         return
+    # one emission per element of the list, none for an empty list: a select_simple call that is not inside the iteration over the
+    # list (and not behind a test of the list's length) runs even when the list is empty
+    for c in calls:
+        anc = getattr(c, 'parent', None)
+        in_iter, len_guard = False, False
+        while anc is not None and anc is not fd:
+            if isinstance(anc, (ast.For, ast.While, ast.ListComp, ast.GeneratorExp)) or (isinstance(anc, (ast.Lambda, ast.FunctionDef)) and anc is not fd):
+                in_iter = True
+            if isinstance(anc, ast.If):
+                tt = node_text(anc.test, 200)
+                if 'len(' in tt or 'length' in tt or 'unnest_list' in tt:
+                    len_guard = True
+            anc = getattr(anc, 'parent', None)
+        if not in_iter and not len_guard:
+            rep.violated('unnest count', c, 'select_simple is called outside the iteration over the UNNEST list and without a test of its length: for an empty list a record is still emitted (with a missing value at the UNNEST position) instead of none')
+            return
     for c in calls:
         par = getattr(c, 'parent', None)
         # inside a list comprehension: every element is evaluated before all()/any() looks at the verdicts
